@@ -717,3 +717,48 @@ fn g_exec_1_execute_glue() {
     vcover!();
     std::mem::forget(w);
 }
+
+//@ob id=G-EVICT-1 kind=C props=C05,C04,C10 timeout=1200 fn=IngredientImpl::evict_value_from_memo_for,MemoHeader::can_evict_value,MemoTableWithTypes::insert,MemoTableWithTypesMut::map_memo,MemoTableWithTypes::get
+//@ pre: a real one-slot memo table holding a memo with a value, of each origin kind (derived / derived-untracked / assigned), any stamps
+//@ post: eviction drops the value **iff** the origin is fully tracked Derived; in every case the header is untouched: same verified_at, changed_at, durability, origin kind and finality (the dependency information of an evicted result is kept), and the slot still holds the same memo
+#[cfg(kani)]
+#[kani::proof]
+#[kani::unwind(4)]
+fn g_evict_1_eviction_keeps_the_header() {
+    let (types, mut memos) = crate::table::memo::verif::standalone::<Memo<CGen>>();
+    let kind: u8 = vk::any();
+    vk::assume(kind < 3);
+    let origin = match kind {
+        0 => crate::zalsa_local::verif::empty_derived(),
+        1 => crate::zalsa_local::OriginAndExtra::derived_untracked(std::iter::empty(), Default::default()),
+        _ => crate::zalsa_local::OriginAndExtra::assigned(vk::key(5, 3)),
+    };
+    let (va, ca) = (vk::any_revision(), vk::any_revision());
+    let d = vk::any_durability();
+    let vf: bool = vk::any();
+    let m: &'static mut Memo<CGen> = Box::leak(Box::new(Memo::<CGen>::new(Some(11), va, crate::zalsa_local::verif::revs(d, ca, vf, origin))));
+    let ptr = std::ptr::NonNull::from(&mut *m);
+    let mi = MemoIngredientIndex::from_usize(0);
+    // SAFETY: `memos` was created for `types`
+    let old = unsafe { types.attach_memos(&memos) }.insert(mi, ptr);
+    assert!(old.is_none());
+    // SAFETY: `memos` was created for `types`
+    IngredientImpl::<CGen>::evict_value_from_memo_for(unsafe { types.attach_memos_mut(&mut memos) }, mi);
+    // SAFETY: `memos` was created for `types`
+    let got = unsafe { types.attach_memos(&memos) }.get::<Memo<CGen>>(mi).unwrap();
+    assert!(got == ptr);
+    // SAFETY: the memo is leaked
+    let m = unsafe { got.as_ref() };
+    assert!(m.value.is_none() == (kind == 0));
+    assert!(m.header.verified_at.load() == va && m.header.revisions.changed_at == ca && m.header.revisions.durability == d);
+    assert!(m.header.may_be_provisional() == !vf);
+    assert!(match m.header.origin() {
+        crate::zalsa_local::QueryOriginRef::Derived(_) => kind == 0,
+        crate::zalsa_local::QueryOriginRef::DerivedUntracked(_) => kind == 1,
+        crate::zalsa_local::QueryOriginRef::Assigned(k) => kind == 2 && k == vk::key(5, 3),
+    });
+    vcover!(kind == 0, "evictable case");
+    vcover!();
+    std::mem::forget(memos);
+    std::mem::forget(types);
+}
